@@ -295,6 +295,20 @@ Proof.
          end.
 Qed.
 
+Lemma bzr_add_basis s p st s' : bzr_add s p = Done st s' -> sbasis s' = sbasis s.
+Proof.
+  unfold bzr_add. destruct (dl (sdisk s) p); [|res_inv].
+  destruct (path2id (sinv s) p); [res_inv|]. apply add_entry_basis.
+Qed.
+
+Lemma move_many_bzr_basis ps : forall s d st s', move_many Bzr s ps d = Done st s' -> sbasis s' = sbasis s.
+Proof.
+  induction ps as [|p ps IH]; intros s d st s'; simpl; [res_inv|].
+  destruct (bzr_move s p d) as [[|e] s1|] eqn:E; [| |discriminate].
+  - intros H. apply IH in H. apply bzr_move_basis in E. congruence.
+  - intros H; inversion H; subst. eapply bzr_move_basis; eassumption.
+Qed.
+
 Lemma step_bzr_basis_norm s o st s' : basis_norm s -> step Bzr s o = Done st s' -> basis_norm s'.
 Proof.
   intros Hn. unfold basis_norm in *.
@@ -318,6 +332,10 @@ Proof.
   - intros H. eapply bzr_commit_norm; eassumption.
   - unfold bzr_revert. destruct (revert_disk _ _ _ _ _ _); [|discriminate]. res_inv; exact Hn.
   - res_inv; exact Hn.
+  - intros H. apply Hsame. eapply move_many_bzr_basis; eassumption.
+  - unfold smart_add. destruct (isfile (sdisk s) p); [|discriminate].
+    destruct (path2id (sinv s) p); [intros H; apply Hsame; eapply bzr_add_basis; eassumption|].
+    destruct (bzr_parent_check s p); [discriminate|]. intros H; apply Hsame; eapply bzr_add_basis; eassumption.
 Qed.
 
 Lemma run_bzr_basis_norm : forall ops s, basis_norm s -> basis_norm (run Bzr s ops).
